@@ -59,44 +59,54 @@ Lemma bal_app n o p q :
   bal n o (p ++ q) = match bal n o p with Some (n1, o1) => bal n1 o1 q | None => None end.
 Proof.
   revert n o; induction p as [|e p IH]; intros n o; cbn; [reflexivity|].
-  destruct e as [id ret|id err].
-  - destruct (Nat.eqb id n); [apply IH|reflexivity].
-  - destruct (mem_nat id o); [apply IH|reflexivity].
+  destruct e as [id out|tv err].
+  - destruct (Nat.eqb id n && tok_ok id out); [apply IH|reflexivity].
+  - destruct (mem_nat tv o); [apply IH|reflexivity].
 Qed.
 
-(* accounting: ends + still open = returned starts + open before *)
+Lemma occ_cons t x l : occ t (x :: l) = (if Nat.eqb t x then 1 else 0) + occ t l.
+Proof. unfold occ. cbn [filter]. destruct (Nat.eqb t x); reflexivity. Qed.
+
+(* accounting per token value: ends + still open = returned starts + open before *)
 Lemma bal_counts evs : forall n o n' o', bal n o evs = Some (n', o') ->
   forall t, cnt (is_end_tok t) evs + occ t o' = cnt (is_sret_of t) evs + occ t o.
 Proof.
   induction evs as [|e r IH]; intros n o n' o' H t; cbn in H.
   - injection H as <- <-. reflexivity.
-  - destruct e as [id ret|id err].
-    + destruct (Nat.eqb id n) eqn:E; [|discriminate]. specialize (IH _ _ _ _ H t).
-      unfold cnt in *. cbn [filter is_end_tok is_sret_of]. destruct ret.
-      * assert (occ t (id :: o) = (if Nat.eqb t id then 1 else 0) + occ t o) as O
-          by (unfold occ; cbn [filter]; destruct (Nat.eqb t id); reflexivity).
-        rewrite O in IH. destruct (Nat.eqb t id); cbn [length]; lia.
+  - destruct e as [id out|tv err].
+    + destruct (Nat.eqb id n && tok_ok id out) eqn:E; [|discriminate]. specialize (IH _ _ _ _ H t).
+      unfold cnt in *. cbn [filter is_end_tok is_sret_of]. destruct out as [[tv cv]|].
+      * rewrite occ_cons in IH. destruct (Nat.eqb t tv); cbn [length]; lia.
       * exact IH.
-    + destruct (mem_nat id o) eqn:M; [|discriminate]. specialize (IH _ _ _ _ H t).
-      unfold cnt in *. cbn [filter is_end_tok is_sret_of]. destruct (Nat.eqb t id) eqn:E.
-      * apply Nat.eqb_eq in E. subst id. pose proof (occ_rm_same t o M). cbn [length]. lia.
-      * assert (id <> t) as N by (intro; subst; rewrite Nat.eqb_refl in E; discriminate).
-        rewrite (occ_rm_other id t o N) in IH. exact IH.
+    + destruct (mem_nat tv o) eqn:M; [|discriminate]. specialize (IH _ _ _ _ H t).
+      unfold cnt in *. cbn [filter is_end_tok is_sret_of]. destruct (Nat.eqb t tv) eqn:E.
+      * apply Nat.eqb_eq in E. subst tv. pose proof (occ_rm_same t o M). cbn [length]. lia.
+      * assert (tv <> t) as N by (intro; subst; rewrite Nat.eqb_refl in E; discriminate).
+        rewrite (occ_rm_other tv t o N) in IH. exact IH.
 Qed.
 
-(* ids are handed out once, in order *)
+(* ids are handed out once, in order; a non-nil token value S t is only ever returned by start t *)
 Lemma bal_starts evs : forall n o n' o', bal n o evs = Some (n', o') ->
-  forall t, cnt (is_start_of t) evs <= 1 /\ (t < n -> cnt (is_start_of t) evs = 0).
+  forall t, cnt (is_start_of t) evs <= 1 /\ (t < n -> cnt (is_start_of t) evs = 0)
+            /\ cnt (is_sret_of (S t)) evs <= cnt (is_start_of t) evs.
 Proof.
   induction evs as [|e r IH]; intros n o n' o' H t; cbn in H.
-  - cbn. split; [lia|reflexivity].
-  - destruct e as [id ret|id err].
-    + destruct (Nat.eqb id n) eqn:E; [|discriminate]. apply Nat.eqb_eq in E. subst id.
-      destruct (IH _ _ _ _ H t) as [I1 I2]. unfold cnt in *. cbn [filter is_start_of].
+  - cbn. repeat split; lia.
+  - destruct e as [id out|tv err].
+    + destruct (Nat.eqb id n && tok_ok id out) eqn:E; [|discriminate].
+      apply andb_true_iff in E as [E TK]. apply Nat.eqb_eq in E. subst id.
+      destruct (IH _ _ _ _ H t) as (I1 & I2 & I3). unfold cnt in *. cbn [filter is_start_of is_sret_of].
+      assert (length (filter (is_sret_of (S t)) (HStart n out :: r))
+              <= (if Nat.eqb t n then 1 else 0) + length (filter (is_sret_of (S t)) r)) as SR.
+      { cbn [filter is_sret_of]. destruct out as [[tv cv]|]; [|lia]. cbn in TK.
+        destruct (Nat.eqb (S t) tv) eqn:E1; [|lia]. apply Nat.eqb_eq in E1. subst tv. cbn in TK.
+        cbn [length]. rewrite TK. lia. }
+      cbn [filter is_sret_of] in SR.
       destruct (Nat.eqb t n) eqn:E.
-      * apply Nat.eqb_eq in E. subst t. cbn [length]. rewrite I2 by lia. split; lia.
-      * split; [exact I1|]. intro L. apply I2. lia.
-    + destruct (mem_nat id o); [|discriminate]. unfold cnt in *. cbn [filter is_start_of]. exact (IH _ _ _ _ H t).
+      * apply Nat.eqb_eq in E. subst t. cbn [length]. rewrite I2 in * by lia. repeat split; lia.
+      * repeat split; [exact I1| intro L; apply I2; lia | lia].
+    + destruct (mem_nat tv o); [|discriminate]. unfold cnt in *. cbn [filter is_start_of is_sret_of].
+      exact (IH _ _ _ _ H t).
 Qed.
 
 Lemma bal_prefix p s n o r : bal n o (p ++ s) = Some r -> exists r', bal n o p = Some r'.
@@ -105,19 +115,39 @@ Proof. rewrite bal_app. destruct (bal n o p) as [[n1 o1]|]; [eauto|discriminate]
 (* ---- the call sites keep bal happy -------------------------------------------- *)
 Definition Inv (h : hstate) (open : list nat) : Prop := forall t, occ t open = held t (h_tab h).
 
-Lemma take_tok_held k tab tok rest : take_tok k tab = Some (tok, rest) ->
-  forall t, held t tab = (if snd tok && Nat.eqb t (fst tok) then 1 else 0) + held t rest.
+Definition holds_out (t : nat) (out : option (nat * nat)) : nat :=
+  match out with Some (tv, _) => if Nat.eqb t tv then 1 else 0 | None => 0 end.
+
+Lemma held_cons t k n out tab : held t ((k, (n, out)) :: tab) = holds_out t out + held t tab.
 Proof.
-  revert tok rest; induction tab as [|[j u] r IH]; intros tok rest H t; cbn in H; [discriminate|].
-  destruct (Nat.eqb j k).
-  - injection H as <- <-. unfold held. cbn [filter snd fst]. destruct (snd u && Nat.eqb t (fst u)); reflexivity.
-  - destruct (take_tok k r) as [[t' r']|]; [|discriminate]. injection H as <- <-.
-    specialize (IH _ _ eq_refl t). unfold held in *. cbn [filter snd fst].
-    destruct (snd u && Nat.eqb t (fst u)); cbn [length]; lia.
+  unfold held, holds_out. cbn [filter]. unfold holds at 1. cbn [snd].
+  destruct out as [[tv cv]|]; [destruct (Nat.eqb t tv)|]; reflexivity.
 Qed.
 
-Lemma hook_end_evs hs tok e : hook_end hs tok e = if snd tok then [HEnd (fst tok) e] else [].
-Proof. unfold hook_end. destruct (snd tok); [|reflexivity]. destruct (hb_ep (beh hs (fst tok))); reflexivity. Qed.
+Lemma take_tok_held k tab tok rest : take_tok k tab = Some (tok, rest) ->
+  forall t, held t tab = holds_out t (snd tok) + held t rest.
+Proof.
+  revert tok rest; induction tab as [|[j [n out]] r IH]; intros tok rest H t; cbn in H; [discriminate|].
+  destruct (Nat.eqb j k).
+  - injection H as <- <-. apply held_cons.
+  - destruct (take_tok k r) as [[t' r']|]; [|discriminate]. injection H as <- <-.
+    specialize (IH _ _ eq_refl t). rewrite !held_cons. lia.
+Qed.
+
+Lemma hook_end_evs hs n out e : hook_end hs n out e = match out with Some (tv, _) => [HEnd tv e] | None => [] end.
+Proof. unfold hook_end. destruct out as [[tv cv]|]; [|reflexivity]. destruct (hb_ep (beh hs n)); reflexivity. Qed.
+
+Lemma start_out_tok_ok hs n : tok_ok n (start_out hs n) = true.
+Proof.
+  unfold start_out, tok_ok. destruct (hb_sp (beh hs n)); [reflexivity|].
+  destruct (hb_ret (beh hs n)); cbn; rewrite ?Nat.eqb_refl; reflexivity.
+Qed.
+
+Lemma mem_nat_of_occ t l : 1 <= occ t l -> mem_nat t l = true.
+Proof.
+  unfold occ, mem_nat. induction l as [|x r IH]; cbn; [lia|].
+  destruct (Nat.eqb t x); cbn; [reflexivity|exact IH].
+Qed.
 
 Lemma drq_bal hs h s open : Inv h open ->
   exists open', bal (h_next h) open (q_evs (snd (drq hs h s))) = Some (h_next (fst (drq hs h s)), open')
@@ -125,29 +155,27 @@ Lemma drq_bal hs h s open : Inv h open ->
 Proof.
   intro I. unfold drq. destruct (s_part s) as [|e| |e]; cbn [fst snd q_evs h_next h_tab].
   - exists open. split; [reflexivity|exact I].
-  - rewrite hook_end_evs. cbn [fst snd]. unfold hook_start. destruct (start_ret hs (h_next h)); cbn.
-    + rewrite ?Nat.eqb_refl. cbn. rewrite ?Nat.eqb_refl. cbn. exists open. split; [reflexivity|exact I].
-    + rewrite ?Nat.eqb_refl. exists open. split; [reflexivity|exact I].
-  - unfold hook_start. cbn. rewrite Nat.eqb_refl. destruct (start_ret hs (h_next h)).
-    + exists (h_next h :: open). split; [reflexivity|]. intro t. unfold Inv in I. unfold held, occ in *.
-      cbn [filter snd fst h_tab andb]. specialize (I t). destruct (Nat.eqb t (h_next h)); cbn [length]; lia.
-    + exists open. split; [reflexivity|]. intro t. unfold held. cbn [filter snd fst h_tab andb]. apply I.
-  - destruct (take_tok (s_k s) (h_tab h)) as [[tok rest]|] eqn:T; cbn [fst snd q_evs h_next h_tab].
-    + rewrite hook_end_evs. pose proof (take_tok_held _ _ _ _ T) as Hh. destruct tok as [id ret]. cbn [fst snd] in *.
-      destruct ret; cbn.
-      * assert (mem_nat id open = true) as M.
-        { destruct (mem_nat id open) eqn:M; [reflexivity|]. exfalso.
-          specialize (I id). specialize (Hh id). rewrite Nat.eqb_refl in Hh. cbn in Hh.
-          assert (occ id open = 0) as Z.
-          { unfold occ, mem_nat in *. clear -M. induction open as [|x r IH]; cbn in *; [reflexivity|].
-            destruct (Nat.eqb id x); [discriminate|]. apply IH. exact M. }
-          lia. }
-        rewrite M. exists (rm id open). split; [reflexivity|]. intro t. specialize (I t). specialize (Hh t). cbn in Hh.
-        destruct (Nat.eqb t id) eqn:E.
-        -- apply Nat.eqb_eq in E. subst t. pose proof (occ_rm_same id open M). cbn [h_tab]. lia.
-        -- assert (id <> t) as N by (intro; subst; rewrite Nat.eqb_refl in E; discriminate).
-           rewrite (occ_rm_other id t open N). cbn [h_tab]. lia.
-      * exists open. split; [reflexivity|]. intro t. specialize (I t). specialize (Hh t). cbn in Hh. cbn [h_tab]. lia.
+  - rewrite hook_end_evs. unfold hook_start. pose proof (start_out_tok_ok hs (h_next h)) as TK.
+    destruct (start_out hs (h_next h)) as [[tv cv]|]; cbn [app bal]; rewrite Nat.eqb_refl, TK; cbn [andb].
+    + unfold mem_nat. cbn [existsb]. rewrite Nat.eqb_refl. cbn [orb rm]. rewrite Nat.eqb_refl.
+      exists open. split; [reflexivity|exact I].
+    + exists open. split; [reflexivity|exact I].
+  - unfold hook_start. pose proof (start_out_tok_ok hs (h_next h)) as TK. cbn [bal]. rewrite Nat.eqb_refl, TK. cbn [andb].
+    destruct (start_out hs (h_next h)) as [[tv cv]|] eqn:SO.
+    + exists (tv :: open). split; [reflexivity|]. intro t. cbn [h_tab]. rewrite held_cons, occ_cons. cbn [holds_out]. now rewrite (I t).
+    + exists open. split; [reflexivity|]. intro t. cbn [h_tab]. rewrite held_cons. cbn [holds_out]. apply I.
+  - destruct (take_tok (s_k s) (h_tab h)) as [[[n0 out] rest]|] eqn:T; cbn [fst snd q_evs h_next h_tab].
+    + rewrite hook_end_evs. pose proof (take_tok_held _ _ _ _ T) as Hh. cbn [snd] in Hh.
+      destruct out as [[tv cv]|]; cbn [bal].
+      * assert (mem_nat tv open = true) as M.
+        { apply mem_nat_of_occ. specialize (I tv). specialize (Hh tv). cbn [holds_out] in Hh.
+          rewrite Nat.eqb_refl in Hh. lia. }
+        rewrite M. exists (rm tv open). split; [reflexivity|]. intro t. specialize (I t). specialize (Hh t).
+        cbn [holds_out] in Hh. cbn [h_tab]. destruct (Nat.eqb t tv) eqn:E.
+        -- apply Nat.eqb_eq in E. subst t. pose proof (occ_rm_same tv open M). lia.
+        -- assert (tv <> t) as N by (intro; subst; rewrite Nat.eqb_refl in E; discriminate).
+           rewrite (occ_rm_other tv t open N). lia.
+      * exists open. split; [reflexivity|]. intro t. specialize (I t). specialize (Hh t). cbn [holds_out] in Hh. cbn [h_tab]. lia.
     + exists open. split; [reflexivity|exact I].
 Qed.
 
@@ -186,12 +214,13 @@ Proof. unfold run. apply (decorate_bal hs _ hinit []). intro t. reflexivity. Qed
 Lemma balanced hs calls sched :
   let r := run hs calls sched in
   let evs := flat_evs (snd r) in
-  (forall t, cnt (is_start_of t) evs <= 1)
+  (forall t, cnt (is_start_of t) evs <= 1 /\ cnt (is_sret_of (S t)) evs <= cnt (is_start_of t) evs)
   /\ (forall p s t, evs = p ++ s -> cnt (is_end_tok t) p <= cnt (is_sret_of t) p)
   /\ (forall t, cnt (is_end_tok t) evs + held t (h_tab (fst r)) = cnt (is_sret_of t) evs).
 Proof.
   cbn zeta. destruct (run_bal hs calls sched) as (open & B & I). repeat split.
-  - intro t. exact (proj1 (bal_starts _ _ _ _ _ B t)).
+  - exact (proj1 (bal_starts _ _ _ _ _ B t)).
+  - exact (proj2 (proj2 (bal_starts _ _ _ _ _ B t))).
   - intros p s t E. rewrite E in B. destruct (bal_prefix _ _ _ _ _ B) as ([n1 o1] & B1).
     pose proof (bal_counts _ _ _ _ _ B1 t) as C. cbn in C. lia.
   - intro t. pose proof (bal_counts _ _ _ _ _ B t) as C. cbn in C. rewrite <- (I t). lia.
@@ -431,18 +460,28 @@ Proof.
 Qed.
 
 (* ---- from the skeleton to the decorated requests --------------------------------- *)
+Lemma seen_ok_saw (u : bool) out q : q_seen q = (if u then Some (cv_of out) else None) -> seen_ok (cv_of out) q = true.
+Proof. unfold seen_ok. intros ->. destruct u; [apply Nat.eqb_refl|reflexivity]. Qed.
+
 Lemma drq_shape hs h s calls : srq_ok calls s ->
   shape_ok calls (snd (drq hs h s)) = true /\ end_matches (snd (drq hs h s)) = true.
 Proof.
   unfold srq_ok, drq, shape_ok, end_matches, rq_dispatched, srq_dispatched.
-  destruct (s_part s) as [|e| |e]; destruct (s_resp s) as [r|]; try contradiction; cbn.
+  destruct (s_part s) as [|e| |e]; destruct (s_resp s) as [r|]; try contradiction;
+    cbn [snd fst q_phase q_begin q_evs q_resp q_k q_item].
   - intros ->. split; reflexivity.
-  - intros [-> ->]. rewrite hook_end_evs. unfold hook_start. cbn. destruct (start_ret hs (h_next h)); cbn.
-    + rewrite Nat.eqb_refl, eqb_reflx. split; reflexivity.
-    + split; reflexivity.
+  - intros [-> ->]. rewrite hook_end_evs. unfold hook_start.
+    destruct (start_out hs (h_next h)) as [[tv cv]|] eqn:SO; cbn [app forallb andb].
+    + rewrite Nat.eqb_refl, eqb_reflx. cbn [andb]. split; [|reflexivity].
+      apply (seen_ok_saw (s_user s) (Some (tv, cv))). reflexivity.
+    + split; [|reflexivity]. apply (seen_ok_saw (s_user s) None). reflexivity.
   - intros ->. split; reflexivity.
-  - intros ->. destruct (take_tok (s_k s) (h_tab h)) as [[[id ret] rest]|]; cbn.
-    + rewrite hook_end_evs. cbn. destruct ret; cbn; [rewrite Nat.eqb_refl, eqb_reflx|]; split; reflexivity.
+  - intros ->. destruct (take_tok (s_k s) (h_tab h)) as [[[id out] rest]|];
+      cbn [snd fst q_phase q_begin q_evs q_resp q_k q_item].
+    + rewrite hook_end_evs. destruct out as [[tv cv]|]; cbn [forallb andb].
+      * rewrite Nat.eqb_refl, eqb_reflx. cbn [andb]. split; [|reflexivity].
+        apply (seen_ok_saw (s_user s) (Some (tv, cv))). reflexivity.
+      * split; [|reflexivity]. apply (seen_ok_saw (s_user s) None). reflexivity.
     + split; reflexivity.
 Qed.
 
@@ -527,7 +566,7 @@ Definition w_exch_badschema := mk_call true KExch PvOk false [TEmit; TBadSchema]
 Definition legacy_gate_obs : obs :=
   let r := http_resp 400 false [[FExc]] in
   {| o_run := [[{| q_k := 0; q_item := None; q_phase := PWhole; q_begin := None;
-                  q_evs := [HStart 0 true; HEnd 0 true]; q_resp := Some r |}]; []];
+                  q_evs := [HStart 0 (Some (1, 0)); HEnd 1 true]; q_seen := None; q_resp := Some r |}]; []];
      o_ref := [[Some r]; []] |}.
 
 Lemma gate_witness :
@@ -562,30 +601,80 @@ Proof.
   destruct (conts_from_ok cl H ST C _ _ _ _ _ I) as (it & NI & _ & D & F). rewrite Nat.sub_0_r in NI. eauto.
 Qed.
 
-(* a request that runs without suspension: one start and, iff it returned, one end with its token *)
+(* a request that runs without suspension: one start and, iff it returned, one end with
+   exactly the token value the start returned *)
 Lemma whole_events hs h s e : s_part s = PtWhole e ->
   q_evs (snd (drq hs h s)) =
-  HStart (h_next h) (start_ret hs (h_next h)) :: (if start_ret hs (h_next h) then [HEnd (h_next h) e] else []).
+  HStart (h_next h) (start_out hs (h_next h))
+  :: match start_out hs (h_next h) with Some (tv, _) => [HEnd tv e] | None => [] end.
 Proof. intro P. unfold drq. rewrite P. cbn. rewrite hook_end_evs. reflexivity. Qed.
+
+(* ... for every shape of what start returns: the token reaches end whether the context
+   that came with it is the caller's, nil or a derived one; user code runs under the
+   derived context exactly when one was returned *)
+Lemma whole_any_shape hs h s e sh : s_part s = PtWhole e ->
+  hb_sp (beh hs (h_next h)) = false -> hb_ret (beh hs (h_next h)) = sh ->
+  q_evs (snd (drq hs h s)) = [HStart (h_next h) (Some (tokv sh (h_next h), ctxv sh (h_next h))); HEnd (tokv sh (h_next h)) e]
+  /\ q_seen (snd (drq hs h s)) = (if s_user s then Some (ctxv sh (h_next h)) else None).
+Proof.
+  intros P SP SH. rewrite (whole_events hs h s e P). unfold drq. rewrite P. cbn [snd q_seen].
+  unfold start_out. rewrite SP, SH. split; reflexivity.
+Qed.
 
 (* a suspended request: the end that runs when it resumes carries the token its own start returned,
    whatever other requests did to the hook in between is irrelevant to WHICH token it carries *)
 Lemma suspended_events hs h s1 s2 e : s_part s1 = PtBegin -> s_part s2 = PtEnd e -> s_k s2 = s_k s1 ->
-  q_evs (snd (drq hs h s1)) = [HStart (h_next h) (start_ret hs (h_next h))]
-  /\ q_evs (snd (drq hs (fst (drq hs h s1)) s2)) = (if start_ret hs (h_next h) then [HEnd (h_next h) e] else []).
+  q_evs (snd (drq hs h s1)) = [HStart (h_next h) (start_out hs (h_next h))]
+  /\ q_evs (snd (drq hs (fst (drq hs h s1)) s2))
+     = match start_out hs (h_next h) with Some (tv, _) => [HEnd tv e] | None => [] end
+  /\ q_seen (snd (drq hs (fst (drq hs h s1)) s2)) = (if s_user s2 then Some (cv_of (start_out hs (h_next h))) else None).
 Proof.
   intros P1 P2 K. unfold drq. rewrite P1. cbn. rewrite P2. cbn. rewrite K, Nat.eqb_refl. cbn.
-  rewrite hook_end_evs. split; reflexivity.
+  rewrite hook_end_evs. repeat split; reflexivity.
 Qed.
 
+Lemma suspended_any_shape hs h s1 s2 e sh : s_part s1 = PtBegin -> s_part s2 = PtEnd e -> s_k s2 = s_k s1 ->
+  hb_sp (beh hs (h_next h)) = false -> hb_ret (beh hs (h_next h)) = sh ->
+  q_evs (snd (drq hs (fst (drq hs h s1)) s2)) = [HEnd (tokv sh (h_next h)) e]
+  /\ q_seen (snd (drq hs (fst (drq hs h s1)) s2)) = (if s_user s2 then Some (ctxv sh (h_next h)) else None).
+Proof.
+  intros P1 P2 K SP SH. destruct (suspended_events hs h s1 s2 e P1 P2 K) as (_ & E & S).
+  rewrite E, S. unfold start_out. rewrite SP, SH. split; reflexivity.
+Qed.
+
+Lemma tokv_shapes n : tokv RCtxTok n = S n /\ tokv RNilCtx n = S n /\ tokv RDerived n = S n
+                      /\ tokv RNilTok n = 0 /\ tokv RNilNil n = 0.
+Proof. repeat split. Qed.
+
+(* the seeded regression (token dropped on the pipe when start returns a nil context):
+   start 0 returns (nil ctx, token 1), the resumed half sees end with the nil token *)
+Definition nilctx_hooks : list hbeh := [{| hb_sp := false; hb_ep := false; hb_ret := RNilCtx |}].
+Definition nilctx_input : input :=
+  {| i_hooks := nilctx_hooks; i_calls := [mk_call false KUnary PvOk false [] []]; i_sched := [Begin 0; Finish 0] |}.
+Definition nilctx_dropped_obs : obs :=
+  let r := pipe_resp [[FData 0]] in
+  {| o_run := [[{| q_k := 0; q_item := None; q_phase := PBegin; q_begin := None;
+                  q_evs := [HStart 0 (Some (1, 0))]; q_seen := None; q_resp := None |}];
+               [{| q_k := 0; q_item := None; q_phase := PEnd; q_begin := Some (0, Some (1, 0));
+                  q_evs := [HEnd 0 false]; q_seen := Some 0; q_resp := Some r |}]];
+     o_ref := [[None]; [Some r]] |}.
+Lemma nilctx_witness :
+  spec_ok nilctx_input nilctx_dropped_obs = false
+  /\ flat_evs (o_run (model nilctx_input)) = [HStart 0 (Some (1, 0)); HEnd 1 false]
+  /\ spec_ok nilctx_input (model nilctx_input) = true.
+Proof. vm_compute. repeat split; reflexivity. Qed.
+
 Definition example_input : input :=
-  {| i_hooks := [{| hb_sp := false; hb_ep := true |}; {| hb_sp := true; hb_ep := false |}];
+  {| i_hooks := [{| hb_sp := false; hb_ep := true; hb_ret := RNilCtx |}; {| hb_sp := true; hb_ep := false; hb_ret := RCtxTok |};
+                 {| hb_sp := false; hb_ep := false; hb_ret := RDerived |}; {| hb_sp := false; hb_ep := false; hb_ret := RNilTok |}];
      i_calls := [mk_call false KUnary PvOk false [] [];
                  mk_call true KExch PvOk false [TEmit; TErr] [ITick; IBadToken; ITick; ITick]];
      i_sched := [Begin 0; Begin 1; Finish 0; Finish 1] |}.
 Lemma example_ok :
   clean example_input = true
   /\ flat_evs (o_run (model example_input)) =
-     [HStart 0 true; HStart 1 false; HEnd 0 false; HStart 2 true; HEnd 2 false; HStart 3 true; HEnd 3 true]
+     [HStart 0 (Some (1, 0)); HStart 1 None; HEnd 1 false; HStart 2 (Some (3, 3)); HEnd 3 false;
+      HStart 3 (Some (0, 0)); HEnd 0 true]
+  /\ map q_seen (concat (o_run (model example_input))) = [None; None; Some 0; Some 0; Some 3; None; Some 0]
   /\ length (concat (o_run (model example_input))) = 7.
 Proof. vm_compute. repeat split; reflexivity. Qed.
